@@ -255,6 +255,30 @@ pub fn run_transition_h(
     let c1 = counts();
     let side = ex.side.clone();
 
+    // ---- known corner: a growing mutate whose transient total exceeds usize::MAX
+    if let (Op::Mutate { k, h, .. }, Ret::Panicked(msg)) = (op, &ret) {
+        if msg.contains("overflow") {
+            if let Some(x) = pre.obs.entries.iter().find(|x| x.id == k as u32) {
+                let new_s = e + x.kheap + u.vheaps[h as usize];
+                let old_s = e + x.kheap + x.vheap;
+                if new_s > old_s && new_s <= pre.obs.limit && pre.obs.cur.checked_add(new_s - old_s).is_none() {
+                    st.rule("C11.transient-overflow");
+                    viol.push(v(
+                        p(11),
+                        "C11.transient-overflow",
+                        format!(
+                            "mutate growing an entry to {} bytes while {} bytes are accounted: the grown entry fits max_size() = {} once older entries are evicted, but current_size + growth overflows usize before the eviction ({})",
+                            new_s, pre.obs.cur, fmt_big(pre.obs.limit), msg
+                        ),
+                    ));
+                    std::mem::forget(ex.cache.take());
+                    viol.retain(|x| x.props & ctx.sel != 0);
+                    return TransOut { post_key: None, viol, machinery: None };
+                }
+            }
+        }
+    }
+
     // ---- structure first: nothing touches the post state before the walker
     let post_dump = ex.cr().verif_dump();
     let post_walk = match walk(&post_dump) {
@@ -311,8 +335,15 @@ pub fn run_transition_h(
 
     let o = &post_obs;
     let pr = &pre.obs;
+    // which key instance is stored after re-inserting an equal key?
+    let kept_old_kheap: Option<usize> = match op {
+        Op::Insert { k, .. } | Op::InsertRaw { k, .. } => pr.entries.iter().find(|x| x.id == k as u32).and_then(|old| {
+            post_obs.entries.iter().find(|x| x.id == k as u32 && x.kserial == old.kserial && matches!(ret, Ret::InsertOk(_))).map(|_| old.kheap)
+        }),
+        _ => None,
+    };
     let r: RefStep =
-        refmodel::step(u, pr, op, &Incoming { kserial: side.in_k, vserial: side.in_v });
+        refmodel::step(u, pr, op, &Incoming { kserial: side.in_k, vserial: side.in_v, kheap_override: kept_old_kheap });
     st.class(r.class);
 
     // serial mapping for clone-and-continue: the clone holds fresh instances
@@ -417,7 +448,7 @@ pub fn run_transition_h(
                 limit: *rlimit,
                 cap: pr.cap,
                 len: rl.len(),
-                cur: rl.iter().map(|x| x.size(e)).sum(),
+                cur: usize::try_from(rl.iter().map(|x| x.size(e) as u128).sum::<u128>()).unwrap_or(usize::MAX),
                 is_empty: rl.is_empty(),
                 entries: rl
                     .iter()
@@ -428,7 +459,7 @@ pub fn run_transition_h(
                     .collect(),
                 overrun: false,
             };
-            let rg = refmodel::step(u, &robs, op, &Incoming { kserial: side.in_k, vserial: side.in_v });
+            let rg = refmodel::step(u, &robs, op, &Incoming { kserial: side.in_k, vserial: side.in_v, kheap_override: kept_old_kheap });
             let mut want: Vec<u32> = rg.evicted.iter().map(|x| x.id).collect();
             let mut got: Vec<u32> = ids_of(pr, &unasked);
             want.sort();
@@ -474,10 +505,18 @@ pub fn run_transition_h(
     }
     st.rule("C04.contents");
     {
-        let got: BTreeMap<u32, (u64, u64, usize)> =
-            o.entries.iter().map(|x| (x.id, (map_serial(x.kserial), map_serial(x.vserial), x.vheap))).collect();
-        let exp: BTreeMap<u32, (u64, u64, usize)> =
-            r.post.iter().map(|x| (x.id, (x.kserial, x.vserial, x.vheap))).collect();
+        // which key INSTANCE is kept when an equal key is inserted again is not
+        // part of the statement (std's HashMap keeps the old one): values by
+        // identity, keys by equality
+        let got: BTreeMap<u32, (u64, usize)> = o.entries.iter().map(|x| (x.id, (map_serial(x.vserial), x.vheap))).collect();
+        let exp: BTreeMap<u32, (u64, usize)> = r.post.iter().map(|x| (x.id, (x.vserial, x.vheap))).collect();
+        {
+            let gk: BTreeMap<u32, u64> = o.entries.iter().map(|x| (x.id, map_serial(x.kserial))).collect();
+            let ek: BTreeMap<u32, u64> = r.post.iter().map(|x| (x.id, x.kserial)).collect();
+            if gk != ek && got == exp {
+                st.class("replace:kept-another-key-instance");
+            }
+        }
         if got.len() != o.entries.len() {
             viol.push(v(p(4) | p(7), "C04.unique", format!("a key is held twice: {:?}", o.ids())));
         }
@@ -485,7 +524,7 @@ pub fn run_transition_h(
             viol.push(v(
                 p(4),
                 "C04.contents",
-                format!("holds {{id: (key#, value#, heap)}} {:?}, a sequential map holds {:?}", got, exp),
+                format!("holds {{key id: (value#, heap)}} {:?}, a sequential map holds {:?}", got, exp),
             ));
         }
         if o.limit != r.limit {
@@ -560,12 +599,22 @@ pub fn run_transition_h(
         st.rule("C10.reject");
         let failed_expected = !matches!(r.ret, Ret::InsertOk(_) | Ret::TryOk);
         let failed_actual = !matches!(ret, Ret::InsertOk(_) | Ret::TryOk);
-        if failed_actual && post_key != pre.key {
-            viol.push(v(
-                p(10),
-                "C10.atomic",
-                format!("the insertion was rejected ({:?}) but the cache changed", ret),
-            ));
+        if failed_actual {
+            // the statement: contents, order and sizes untouched (instances by
+            // identity). A change of the internal table only (e.g. a capacity
+            // reservation) is recorded as a class, not judged here - C13 / C20
+            // judge capacity and rehashing.
+            let a: Vec<(u64, u64, usize, usize)> = pr.entries.iter().map(|x| (x.kserial, x.vserial, x.kheap, x.vheap)).collect();
+            let b: Vec<(u64, u64, usize, usize)> = o.entries.iter().map(|x| (x.kserial, x.vserial, x.kheap, x.vheap)).collect();
+            if a != b || pr.cur != o.cur || pr.limit != o.limit || pr.len != o.len {
+                viol.push(v(
+                    p(10),
+                    "C10.atomic",
+                    format!("the insertion was rejected ({:?}) but contents, order or sizes changed: before {:?} (current_size {}), after {:?} (current_size {})", ret, pr.ids(), pr.cur, o.ids(), o.cur),
+                ));
+            } else if post_key != pre.key {
+                st.class("reject:internal-table-change");
+            }
         }
         if !failed_expected && matches!(op, Op::TryInsert { .. }) && !departed.is_empty() {
             viol.push(v(
@@ -595,11 +644,11 @@ pub fn run_transition_h(
                 format!("after mutate the cache holds (id, value#, heap) {:?}, expected {:?}", got, exp),
             ));
         }
-        if o.cur != r.post.iter().map(|x| x.size(e)).sum::<usize>() {
+        if o.cur as u128 != r.post.iter().map(|x| x.size(e) as u128).sum::<u128>() {
             viol.push(v(
                 p(11),
                 "C11.accounted",
-                format!("current_size() = {} after mutate, expected {}", o.cur, r.post.iter().map(|x| x.size(e)).sum::<usize>()),
+                format!("current_size() = {} after mutate, expected {}", o.cur, r.post.iter().map(|x| x.size(e) as u128).sum::<u128>()),
             ));
         }
     }
@@ -672,9 +721,6 @@ pub fn run_transition_h(
                         format!("{} left capacity() = {} < max(len, min) = {}", op.show(u), o.cap, floor),
                     ));
                 }
-                if pr.cap < floor && o.cap != pr.cap {
-                    viol.push(v(p(13), "C13.shrink-noop", format!("{} changed capacity {} -> {} although it was below the bound", op.show(u), pr.cap, o.cap)));
-                }
                 st.class(if o.cap < pr.cap { "shrink:shrunk" } else { "shrink:noop" });
             }
             _ => {}
@@ -707,11 +753,20 @@ pub fn run_transition_h(
                         viol.push(v(p(13) | p(14), "C14.capacity", format!("clone has capacity {} < source {}", o.cap, pr.cap)));
                     }
                 }
-                _ => viol.push(v(
-                    p(13),
-                    "C13.unexpected-realloc",
-                    format!("{} changed the table from {} to {} buckets", op.show(u), pre.dump.buckets, post_dump.buckets),
-                )),
+                _ => {
+                    // an operation that is neither an insertion nor a capacity
+                    // operation must not GROW the table (the statement bounds
+                    // growth; it does not forbid giving memory back)
+                    if post_dump.buckets > pre.dump.buckets {
+                        viol.push(v(
+                            p(13),
+                            "C13.unexpected-growth",
+                            format!("{} grew the table from {} to {} buckets", op.show(u), pre.dump.buckets, post_dump.buckets),
+                        ));
+                    } else {
+                        st.class("table:rebuilt-without-growth");
+                    }
+                }
             }
         }
         if !matches!(op, Op::CloneSwap) && !grew && o.cap > pr.cap && !matches!(op, Op::Clear | Op::Drain { .. }) {
@@ -751,7 +806,7 @@ pub fn run_transition_h(
         if stat.iter().any(|(_, s)| *s != Some(Status::Dropped)) {
             viol.push(v(p(15) | p(6), "C15.dropped", format!("rejected instances not dropped: {:?}", stat)));
         }
-        if o.len != r.post.len() || o.cur != r.post.iter().map(|x| x.size(e)).sum::<usize>() {
+        if o.len != r.post.len() || o.cur as u128 != r.post.iter().map(|x| x.size(e) as u128).sum::<u128>() {
             viol.push(v(p(15), "C15.accounting", format!("len() = {}, current_size() = {} after retain", o.len, o.cur)));
         }
         st.class(match (r.explicit.len(), r.post.len()) {
